@@ -74,7 +74,7 @@ def gen_cases(ctx, count, seed, extra=()):
 
 
 def run(ctx):
-    cases = gen_cases(ctx, 600 if ctx.tier == "quick" else 20000, ctx.seed, ["big"] if ctx.tier == "thorough" else [])
+    cases = gen_cases(ctx, 600 if ctx.tier == "quick" else 2400, ctx.seed, ["big"] if ctx.tier == "thorough" else [])
     mm, oob, ns, ok = evaluate(ctx, cases, "c10")
     sm = []
     for c in cases:
@@ -83,7 +83,7 @@ def run(ctx):
         sm.append(dict(kind="c-out-of-bounds", what="on this input the (unchecked) C decompressor reads or writes outside its buffers",
                        case=dict(i=c["i"], seed=c.get("seed"), kind=c["kind"], src=c["src"][:120])))
     # the store-level half: values around the decision thresholds through set / get / meta / restart, directory compared
-    res2 = c01.run_mode(ctx, "compress", 40 if ctx.tier == "quick" else 1500, "C10")
+    res2 = c01.run_mode(ctx, "compress", 40 if ctx.tier == "quick" else 300, "C10")
     dist = dict(res2["dist"])
     for c in cases:
         k = "qlz:%s/%s" % (c["kind"], "ok" if c["cok"] else "err")
